@@ -1,4 +1,345 @@
-(** Properties/C19.v — placeholder while the proofs are being developed. *)
-From PintV Require Import Model.UC Model.Measure Model.UncTok.
-Example C19_stub : join_unc " " "(" ")" "3(1)" "m" = "3(1) m"%string.
-Proof. reflexivity. Qed.
+(** Properties/C19.v — measurements carry uncertainty consistently through conversion and
+    arithmetic; the textual notations parse to that same measurement.
+    Only statements, each closed by [exact] of a lemma proved in Proofs/MeasureProofs.v or
+    Proofs/UncTokProofs.v.  Unless a registry is named, every theorem holds for EVERY registry
+    [r], environment [E] of atom standard deviations, and every input (no size bound).
+
+    An uncertain magnitude is an exact first-order affine form (Model/Measure.v); σ is stated
+    through the variance [Σ der_i²·σ_i²] (a rational), and as the rational [|d|·σ_i] for forms
+    that depend on a single variable (a freshly constructed or converted measurement). *)
+From Coq Require Import Qcabs.
+From PintV Require Import Model.UC Model.Eval Model.Registry Model.Measure Model.UncTok.
+From PintV Require Import Proofs.UCProofs Proofs.MeasureProofs Proofs.UncTokProofs.
+From PintV Require Import Gen.DefaultDefs Gen.DefaultReg.
+Open Scope string_scope.
+
+(** * Constructors and accessors *)
+
+(** every form that denotes "value v, absolute error e, units u" normalises to the same
+    (nominal, σ, units): Quantity pair, numbers plus unit, ufloat plus unit, Quantity holding a
+    ufloat, plus_minus absolute, plus_minus relative with e/|v| *)
+Theorem C19_constructor_forms_agree r v e u :
+  let ref := ctor_norm r (CNums v (ENum e) u) in
+  ctor_norm r (CQty v u (ENum e)) = ref
+  ∧ ctor_norm r (CQty v u (EQty e u)) = ref
+  ∧ ctor_norm r (CNums v (EQty e u) u) = ref
+  ∧ ctor_norm r (CUfloat v e u) = ref
+  ∧ ctor_norm r (CQtyU v e u) = ref
+  ∧ ctor_norm r (CPlusMinus v u (ENum e) false) = ref
+  ∧ ctor_norm r (CPlusMinus v u (EQty e u) false) = ref
+  ∧ ctor_norm r (CBare v (ENum e)) = ctor_norm r (CNums v (ENum e) ∅)
+  ∧ (v ≠ 0%Qc → ctor_norm r (CPlusMinus v u (ENum (e / Qcabs v)) true) = ref).
+Proof. exact (ctor_forms_agree r v e u). Qed.
+(** an error given as a Quantity in another unit is the converted number, in every form *)
+Theorem C19_constructor_error_quantity r v e eu u x :
+  qty_to r e eu u = Ok x →
+  ctor_norm r (CNums v (EQty e eu) u) = ctor_norm r (CNums v (ENum x) u)
+  ∧ ctor_norm r (CQty v u (EQty e eu)) = ctor_norm r (CNums v (ENum x) u)
+  ∧ ctor_norm r (CPlusMinus v u (EQty e eu) false) = ctor_norm r (CNums v (ENum x) u).
+Proof. exact (ctor_error_quantity r v e eu u x). Qed.
+
+(** value, error, rel = |σ/nominal| report the constructor's (v, s, u) back; σ² is the variance *)
+Theorem C19_accessors E i v s u :
+  let m := meas_new i (v, s, u) in
+  let E' := env_new E i (v, s, u) in
+  m_value m = (v, u)
+  ∧ m_error E' m = Some (s, u)
+  ∧ variance E' (m_mag m) = (s * s)%Qc
+  ∧ (v ≠ 0%Qc → m_rel E' m = Ok (Qcabs (s / v)))
+  ∧ (v = 0%Qc → m_rel E' m = Err EZeroDiv).
+Proof. exact (accessors_spec E i v s u). Qed.
+
+(** negative errors are refused by every form, and no form ever yields a negative σ *)
+Theorem C19_negative_error_rejected r v e u :
+  (e < 0)%Qc →
+  ctor_norm r (CNums v (ENum e) u) = Err EValue
+  ∧ ctor_norm r (CQty v u (ENum e)) = Err EValue
+  ∧ ctor_norm r (CQty v u (EQty e u)) = Err EValue
+  ∧ ctor_norm r (CBare v (ENum e)) = Err EValue
+  ∧ ctor_norm r (CUfloat v e u) = Err EValue
+  ∧ ctor_norm r (CQtyU v e u) = Err EValue
+  ∧ ctor_norm r (CPlusMinus v u (ENum e) false) = Err EValue
+  ∧ (v ≠ 0%Qc → ctor_norm r (CPlusMinus v u (ENum e) true) = Err EValue).
+Proof. exact (ctor_negative_rejected r v e u). Qed.
+Theorem C19_sigma_never_negative r c v s u : ctor_norm r c = Ok (v, s, u) → (0 <= s)%Qc.
+Proof. exact (ctor_norm_nonneg r c v s u). Qed.
+
+(** F72 (known finding): an error Quantity in ANOTHER offset unit is converted like an
+    absolute temperature — a non-negative error is refused, or shifted by the offset *)
+Theorem C19_constructor_offset_error_refuted :
+  (0 <= mkq 1 2)%Qc
+  ∧ ctor_norm mini_reg (CQty (mkq 20 1) (u1 "degree_Celsius") (EQty (mkq 1 2) (u1 "kelvin"))) = Err EValue
+  ∧ ctor_norm mini_reg (CPlusMinus (mkq 20 1) (u1 "degree_Celsius") (EQty (mkq 1 2) (u1 "kelvin")) false) = Err EValue
+  ∧ ctor_norm mini_reg (CQty (mkq 20 1) (u1 "degree_Fahrenheit") (EQty (mkq 1 2) (u1 "degree_Celsius")))
+    = Ok (mkq 20 1, mkq 329 10, u1 "degree_Fahrenheit")
+  ∧ conv_affine mini_reg (u1 "degree_Celsius") (u1 "degree_Fahrenheit") = Ok (mkq 9 5, mkq 32 1)
+  ∧ (mkq 9 5 * mkq 1 2)%Qc ≠ mkq 329 10.
+Proof. exact ctor_offset_error_refuted. Qed.
+(** … guarded: when the conversion of the error is multiplicative the error is scaled by the slope *)
+Theorem C19_constructor_offset_error_guarded r e eu u a :
+  conv_affine r eu u = Ok (a, 0%Qc) → err_in r (EQty e eu) u = Ok (a * e)%Qc.
+Proof. exact (err_in_multiplicative r e eu u a). Qed.
+
+(** * Conversion *)
+
+(** under the conversion x ↦ a·x + b the nominal value maps like the plain quantity, the
+    variance is multiplied by a² (σ by |a|), covariances by a *)
+Theorem C19_convert_scales_sigma r m dst m' :
+  meas_to r m dst = Ok m' →
+  ∃ a b, conv_affine r (m_units m) dst = Ok (a, b)
+       ∧ m_units m' = dst
+       ∧ nom (m_mag m') = (a * nom (m_mag m) + b)%Qc
+       ∧ qty_to r (nom (m_mag m)) (m_units m) dst = Ok (nom (m_mag m'))
+       ∧ (∀ E, variance E (m_mag m') = (a * a * variance E (m_mag m))%Qc)
+       ∧ (∀ E m2, covariance E (m_mag m') m2 = (a * covariance E (m_mag m) m2)%Qc).
+Proof. exact (meas_to_spec r m dst m'). Qed.
+(** for a constructed measurement: error = |a|·s exactly, and rel is invariant when the
+    conversion is multiplicative (b = 0, a ≠ 0) *)
+Theorem C19_convert_fresh r E i v s u dst m' :
+  let m := meas_new i (v, s, u) in
+  let E' := env_new E i (v, s, u) in
+  meas_to r m dst = Ok m' →
+  ∃ a b, conv_affine r u dst = Ok (a, b)
+    ∧ m_value m' = ((a * v + b)%Qc, dst)
+    ∧ qty_to r v u dst = Ok (a * v + b)%Qc
+    ∧ m_error E' m' = Some ((Qcabs a * s)%Qc, dst)
+    ∧ variance E' (m_mag m') = (a * a * (s * s))%Qc
+    ∧ (b = 0%Qc → a ≠ 0%Qc → v ≠ 0%Qc → m_rel E' m' = m_rel E' m).
+Proof. exact (convert_fresh_spec r E i v s u dst m'). Qed.
+(** conversion fails for the measurement exactly like for the plain quantity *)
+Theorem C19_convert_error_like_plain r m dst e :
+  conv_affine r (m_units m) dst = Err e →
+  meas_to r m dst = Err e ∧ qty_to r (nom (m_mag m)) (m_units m) dst = Err e.
+Proof.
+  intros H. split; [exact (meas_to_err r m dst e H) | unfold qty_to; rewrite H; reflexivity].
+Qed.
+
+(** * Arithmetic: exact first-order propagation on variances *)
+Theorem C19_arith_first_order E a b :
+  variance E (aff_add a b) = (variance E a + variance E b + 2 * covariance E a b)%Qc
+  ∧ variance E (aff_sub a b) = (variance E a + variance E b - 2 * covariance E a b)%Qc
+  ∧ variance E (aff_mul a b)
+    = (nom b * nom b * variance E a + nom a * nom a * variance E b + 2 * nom a * nom b * covariance E a b)%Qc
+  ∧ (∀ c, aff_div a b = Ok c →
+       nom b ≠ 0%Qc ∧ nom c = (nom a / nom b)%Qc ∧
+       variance E c = (variance E a / (nom b * nom b)
+                       + nom a * nom a * variance E b / (nom b * nom b * nom b * nom b)
+                       - 2 * nom a * covariance E a b / (nom b * nom b * nom b))%Qc)
+  ∧ (nom b = 0%Qc → aff_div a b = Err EZeroDiv)
+  ∧ nom (aff_add a b) = (nom a + nom b)%Qc ∧ nom (aff_sub a b) = (nom a - nom b)%Qc
+  ∧ nom (aff_mul a b) = (nom a * nom b)%Qc.
+Proof.
+  split; [exact (variance_add E a b)|]. split; [exact (variance_sub E a b)|].
+  split; [exact (variance_mul E a b)|]. split; [exact (variance_div E a b)|].
+  split; [exact (aff_div_zero a b)|]. repeat split; reflexivity.
+Qed.
+(** independent operands (no shared variable): the familiar sums of squares *)
+Theorem C19_arith_independent E a b :
+  independent a b →
+  variance E (aff_add a b) = (variance E a + variance E b)%Qc
+  ∧ variance E (aff_sub a b) = (variance E a + variance E b)%Qc
+  ∧ variance E (aff_mul a b) = (nom b * nom b * variance E a + nom a * nom a * variance E b)%Qc.
+Proof.
+  intros H. rewrite variance_add, variance_sub, variance_mul, (covariance_independent E a b H).
+  repeat split; ring.
+Qed.
+(** scalar affine maps; constants carry no uncertainty; the variance is never negative *)
+Theorem C19_arith_affine E s o a c :
+  variance E (aff_affine s o a) = (s * s * variance E a)%Qc
+  ∧ variance E (aff_const c) = 0%Qc ∧ (0 <= variance E a)%Qc.
+Proof.
+  split; [exact (variance_affine E s o a)|]. split; [exact (variance_const E c) | exact (variance_nonneg E a)].
+Qed.
+(** correlations are carried by shared variables: m − m and m / m have no uncertainty *)
+Theorem C19_self_correlation E a :
+  variance E (aff_sub a a) = 0%Qc ∧ nom (aff_sub a a) = 0%Qc
+  ∧ (∀ c, aff_div a a = Ok c → variance E c = 0%Qc ∧ nom c = 1%Qc).
+Proof.
+  destruct (variance_sub_self E a) as [V N]. split; [exact V|]. split; [exact N|].
+  exact (variance_div_self E a).
+Qed.
+
+(** measurements: units of * and /; + and − convert one operand (affinely) into the other's
+    units, refuse different dimensions, and propagate variances with the covariance term *)
+Theorem C19_meas_mul_div blind r m1 m2 m :
+  (meas_muldiv blind false r m1 m2 = Ok m →
+     m_units m = uc_mul (m_units m1) (m_units m2) ∧ m_mag m = aff_mul (m_mag m1) (m_mag m2))
+  ∧ (meas_muldiv blind true r m1 m2 = Ok m →
+     m_units m = uc_div (m_units m1) (m_units m2) ∧ aff_div (m_mag m1) (m_mag m2) = Ok (m_mag m)).
+Proof. split; [exact (meas_muldiv_spec blind r m1 m2 m) | exact (meas_div_spec blind r m1 m2 m)]. Qed.
+Theorem C19_meas_add_sub blind sub r m1 m2 m :
+  meas_addsub blind sub r m1 m2 = Ok m →
+  ∃ a1 b1 a2 b2,
+    let x1 := aff_affine a1 b1 (m_mag m1) in
+    let x2 := aff_affine a2 b2 (m_mag m2) in
+    ((m_units m = m_units m1 ∧ a1 = 1%Qc ∧ b1 = 0%Qc ∧ conv_affine r (m_units m2) (m_units m1) = Ok (a2, b2))
+     ∨ (m_units m = m_units m2 ∧ a2 = 1%Qc ∧ b2 = 0%Qc ∧ conv_affine r (m_units m1) (m_units m2) = Ok (a1, b1)))
+    ∧ nom (m_mag m) = (if sub then nom x1 - nom x2 else nom x1 + nom x2)%Qc
+    ∧ ∀ E, variance E (m_mag m)
+           = (if sub then variance E x1 + variance E x2 - 2 * covariance E x1 x2
+              else variance E x1 + variance E x2 + 2 * covariance E x1 x2)%Qc.
+Proof. exact (meas_addsub_spec blind sub r m1 m2 m). Qed.
+Theorem C19_meas_add_sub_dimension_error blind sub r m1 m2 d1 d2 :
+  dim_of r (m_units m1) = Ok d1 → dim_of r (m_units m2) = Ok d2 → d1 ≠ d2 →
+  meas_addsub blind sub r m1 m2 = Err EDim.
+Proof. exact (meas_addsub_dim_error blind sub r m1 m2 d1 d2). Qed.
+Theorem C19_meas_self_correlation blind r m m' E :
+  meas_addsub blind true r m m = Ok m' →
+  nom (m_mag m') = 0%Qc ∧ variance E (m_mag m') = 0%Qc ∧ m_units m' = m_units m.
+Proof. exact (meas_sub_self blind r m m' E). Qed.
+
+(** F73 (known finding): the Measurement class ([blind = true]) applies the multiplicative
+    rules to offset units, where the Quantity class refuses *)
+Theorem C19_unit_rules_offset_refuted :
+  let a := fresh_m 1 (mkq 20 1) (u1 "degree_Celsius") in
+  let b := fresh_m 2 (mkq 10 1) (u1 "degree_Celsius") in
+  res_nom (meas_addsub true false mini_reg a b) = Some (mkq 30 1)
+  ∧ res_units (meas_addsub true false mini_reg a b) = Some (u1 "degree_Celsius")
+  ∧ meas_addsub false false mini_reg a b = Err EOffset
+  ∧ is_ok (meas_muldiv true false mini_reg a b) = true
+  ∧ meas_muldiv false false mini_reg a b = Err EOffset.
+Proof. exact offset_rules_refuted. Qed.
+(** … guarded: without offset units the two classes compute the same *)
+Theorem C19_unit_rules_guarded sub dv r m1 m2 :
+  has_offset r (m_units m1) = Ok false → has_offset r (m_units m2) = Ok false →
+  meas_addsub true sub r m1 m2 = meas_addsub false sub r m1 m2
+  ∧ meas_muldiv true dv r m1 m2 = meas_muldiv false dv r m1 m2.
+Proof.
+  intros H1 H2. split; [exact (blind_agrees_addsub sub r m1 m2 H1 H2) | exact (blind_agrees_muldiv dv r m1 m2 H1 H2)].
+Qed.
+
+(** * The uncertainty tokenizer *)
+
+(** token streams in which no position starts one of the three trigger patterns
+    ("+" "/" "-";  "(" [-] num "+" "/" "-" num ")";  NUMBER "(" NUMBER ")") are returned unchanged *)
+Theorem C19_unc_tok_conservative q l : no_trigger l → unc_tokenize q l = Ok l.
+Proof. exact (utz_conservative q l). Qed.
+(** a syntactic sufficient condition: no "/" token, no NUMBER directly before "(", and the two
+    empty-text tokens (NEWLINE, ENDMARKER) Python appends *)
+Theorem C19_unc_tok_conservative_syntactic q body nl em :
+  tx nl = "" → tx em = "" → is_number nl = false → is_number em = false →
+  Forall (λ x, tx x ≠ "/") body →
+  (∀ i t x rest, drop i body = t :: x :: rest → is_number t = true → tx x ≠ "(") →
+  unc_tokenize q (app body [nl; em]) = Ok (app body [nl; em]).
+Proof.
+  intros H1 H2 H3 H4 H5 H6. apply utz_conservative. exact (no_trigger_plain body nl em H1 H2 H3 H4 H5 H6).
+Qed.
+
+(** [unc_tokens]: for EVERY well-formed notation instance — parenthesised or short, with or
+    without a leading minus, with no exponent / e<digits> / e|E ± <digits> — placed at any
+    positions and followed by any input [rest] that passes the look-ahead guard, the tokenizer
+    yields [v·10^e ; +/- ; u·10^e] (texts [v ++ e], [u ++ e]; zero and nan mantissas untouched)
+    followed by the rewriting of [rest].  Holds for both settings of every defect switch; the
+    switches only change the guard ([follow_ok]) and the uncertainty text of [v(u)]. *)
+Theorem C19_unc_tokens q n ps rest :
+  inst_ok q n = true → length ps = length (render_unc n) → follow_ok q (n_e n) rest = true →
+  ∃ out, unc_tokenize q (app (place (render_unc n) ps) rest) = (r ←r unc_tokenize q rest; Ok (app out r))
+       ∧ map core_of out = expected_cores q n.
+Proof. exact (unc_tokens_spec q n ps rest). Qed.
+
+(** F15 (known finding): with the tokenizer as found, the notation as the LAST thing in the
+    input raises IndexError ([1.0(1)] and [(1.0 +/- 0.1)] followed by NEWLINE, ENDMARKER), while
+    [1.0(1) m] is rewritten; the repaired look-ahead yields [1.0 ; +/- ; 0.1] there *)
+Theorem C19_unc_eof_refuted :
+  inst_ok as_found inst_short = true ∧ inst_ok as_found inst_paren = true
+  ∧ unc_tokenize as_found (app (place (render_unc inst_short) (replicate 4 pos0)) [tok_nl; tok_end]) = Err EIndex
+  ∧ unc_tokenize as_found (app (place (render_unc inst_paren) (replicate 7 pos0)) [tok_nl; tok_end]) = Err EIndex
+  ∧ (∃ l, unc_tokenize as_found (app (place (render_unc inst_short) (replicate 4 pos0))
+                                  [UTok TyName "m" (1, 7)%Z (1, 8)%Z; tok_nl; tok_end]) = Ok l)
+  ∧ (∃ l, unc_tokenize repaired (app (place (render_unc inst_short) (replicate 4 pos0)) [tok_nl; tok_end]) = Ok l
+          ∧ map core_of l = [(TyNumber, "1.0"); (TyOp, "+/-"); (TyNumber, "0.1"); (TyNewline, ""); (TyEnd, "")]).
+Proof. exact unc_eof_witness. Qed.
+(** as found, EVERY exponent-less notation at the end of the input fails the look-ahead … *)
+Theorem C19_unc_eof_as_found q nl rest :
+  q_eof_index q = true → tx nl = "" → get_possible_e q (nl :: rest) 0 = Err EIndex.
+Proof. exact (get_possible_e_eof_as_found q nl rest). Qed.
+(** … guarded: [C19_unc_tokens] is the statement under the boolean guard [follow_ok]; with the
+    look-ahead repaired the end of the input satisfies it *)
+Theorem C19_unc_eof_guarded q n ps nl rest :
+  q_eof_index q = false → tx nl = "" → n_e n = ENone →
+  inst_ok q n = true → length ps = length (render_unc n) →
+  ∃ out, unc_tokenize q (app (place (render_unc n) ps) (nl :: rest))
+         = (r ←r unc_tokenize q (nl :: rest); Ok (app out r))
+       ∧ map core_of out = expected_cores q n.
+Proof.
+  intros Hq Hnl He Hok Hl. apply unc_tokens_spec; [exact Hok | exact Hl |].
+  rewrite He. exact (follow_ok_eof_repaired q nl rest Hq Hnl).
+Qed.
+
+(** F70 (known finding): in [v(u)] an integer u is read as 0.u; this is the reading "in units of
+    the last digit of v" only when u has as many digits as v has decimals *)
+Theorem C19_short_notation_refuted :
+  let n := NInst (TyNumber, "1.23") (TyNumber, "4") ENone SShort in
+  inst_ok as_found n = true
+  ∧ expected_cores as_found n = [(TyNumber, "1.23"); (TyOp, "+/-"); (TyNumber, "0.4")]
+  ∧ expected_cores repaired n = [(TyNumber, "1.23"); (TyOp, "+/-"); (TyNumber, "0.04")]
+  ∧ parse_number "0.4" ≠ parse_number "0.04"
+  ∧ short_unc_text repaired "123" "4" = "4" ∧ short_unc_text as_found "123" "4" = "0.4"
+  ∧ short_unc_text repaired "1.2" "34" = "3.4".
+Proof. exact short_prefix_refuted. Qed.
+Theorem C19_short_notation_guarded v u nd :
+  plain_decimals v = Some nd → nonempty_digits u = true → String.length u = nd → nd ≠ 0%nat →
+  short_unc_text as_found v u = short_unc_text repaired v u.
+Proof. exact (short_unc_text_agree v u nd). Qed.
+
+(** F71 (known finding): a unit name that merely starts with e/E, a sign and a number are
+    consumed as an exponent: tokens of "(4.0+/-0.1)eV+3*eV" *)
+Theorem C19_e_lookahead_refuted :
+  (map core_of <$> (match unc_tokenize as_found toks_ev with Ok l => Some l | Err _ => None end))
+    = Some [(TyNumber, "4.0e+3"); (TyOp, "+/-"); (TyNumber, "0.1e+3"); (TyOp, "*"); (TyName, "eV"); (TyNewline, ""); (TyEnd, "")]
+  ∧ (map core_of <$> (match unc_tokenize repaired toks_ev with Ok l => Some l | Err _ => None end))
+    = Some [(TyNumber, "4.0"); (TyOp, "+/-"); (TyNumber, "0.1"); (TyName, "eV"); (TyOp, "+"); (TyNumber, "3");
+            (TyOp, "*"); (TyName, "eV"); (TyNewline, ""); (TyEnd, "")].
+Proof. exact e_prefix_refuted. Qed.
+
+(** with the tree builder shared with C07: "+/-" has the highest priority, so
+    [v +/- u unit] and [v +/- u * unit] are (ufloat(v, u)) · unit *)
+Theorem C19_unc_parse v u n :
+  build op_priority [TNum v; TOp "+/-"; TNum u; TName n; TOther; TEnd]
+  = Ok (Bin "" (Bin "+/-" (Leaf (TNum v)) (Leaf (TNum u))) (Leaf (TName n)))
+  ∧ build op_priority [TNum v; TOp "+/-"; TNum u; TOp "*"; TName n; TOther; TEnd]
+  = Ok (Bin "*" (Bin "+/-" (Leaf (TNum v)) (Leaf (TNum u))) (Leaf (TName n)))
+  ∧ prio op_priority "+/-" = Some 4%Z
+  ∧ forallb (λ kv : string * Z, String.eqb kv.1 "+/-" || Z.ltb kv.2 4) op_priority = true.
+Proof.
+  split; [exact (unc_parse_tree v u n)|]. split; [exact (unc_parse_tree_mul v u n) | exact plus_minus_binds_tightest].
+Qed.
+
+(** * Formatting: [join_unc] adds the parentheses iff they are absent *)
+Theorem C19_join_unc sep lpar rpar m u :
+  (String.prefix lpar m = false → ends_with rpar m = false →
+     join_unc sep lpar rpar m u = lpar ++ m ++ rpar ++ sep ++ u)
+  ∧ (String.prefix lpar m = true ∨ ends_with rpar m = true →
+     join_unc sep lpar rpar m u = m ++ sep ++ u).
+Proof. exact (join_unc_spec sep lpar rpar m u). Qed.
+
+(** * Non-vacuity *)
+Example C19_nonvacuous_measure :
+  let E : venv := {[ 1%positive := mkq 1 10 ]} in
+  let m := fresh_m 1 (mkq 4 1) (u1 "meter") in
+  let m' := meas_to mini_reg m (u1 "centimeter") in
+  res_nom m' = Some (mkq 400 1) ∧ res_units m' = Some (u1 "centimeter")
+  ∧ (m'' ← (match m' with Ok x => Some x | Err _ => None end); m_error E m'') = Some (mkq 10 1, u1 "centimeter")
+  ∧ (match m' with Ok x => m_rel E x | Err e => Err e end) = Ok (mkq 1 40)
+  ∧ m_rel E m = Ok (mkq 1 40)
+  ∧ res_var E (meas_addsub true false mini_reg m m) = Some (mkq 4 100)
+  ∧ res_var E (meas_addsub true true mini_reg m m) = Some 0%Qc
+  ∧ ctor_norm mini_reg (CQty (mkq 4 1) (u1 "meter") (EQty (mkq 10 1) (u1 "centimeter")))
+    = Ok (mkq 4 1, mkq 1 10, u1 "meter").
+Proof. exact mini_example. Qed.
+(** on the registry regenerated from /repo: degC → degF is x ↦ 9/5·x + 32, inch → cm is ×2.54 *)
+Example C19_nonvacuous_default_registry :
+  conv_affine default_reg (u1 "degree_Celsius") (u1 "degree_Fahrenheit") = Ok (mkq 9 5, mkq 32 1)
+  ∧ conv_affine default_reg (u1 "inch") (u1 "centimeter") = Ok (mkq 254 100, 0%Qc)
+  ∧ conv_affine default_reg (u1 "degree_Celsius") (u1 "kelvin") = Ok (1%Qc, mkq 27315 100)
+  ∧ ctor_norm default_reg (CQty (mkq 4 1) (u1 "meter") (EQty (mkq 10 1) (u1 "centimeter")))
+    = Ok (mkq 4 1, mkq 1 10, u1 "meter").
+Proof. exact default_registry_example. Qed.
+(** a notation instance with exponent that meets every hypothesis of [C19_unc_tokens] *)
+Example C19_nonvacuous_tokens :
+  let n := NInst (TyNumber, "1.0") (TyNumber, "0.1") (ESigned false false "05") (SParen true) in
+  inst_ok as_found n = true
+  ∧ follow_ok as_found (n_e n) [UTok TyName "m" (1, 17)%Z (1, 18)%Z; tok_nl; tok_end] = true
+  ∧ expected_cores as_found n = [(TyOp, "-"); (TyNumber, "1.0e+05"); (TyOp, "+/-"); (TyNumber, "0.1e+05")]
+  ∧ parse_number "1.0e+05" = Some (mkq 100000 1).
+Proof. exact tokens_example. Qed.
